@@ -148,3 +148,58 @@ Definition n_unique_samples_rows (s : screen) : nat := length (sort_uniq Z.compa
 Definition n_unique_treatments_rows (s : screen) : nat :=
   length (sort_uniq Z.compare
             (filter (fun i => negb (i =? CONTROL_SENTINEL_VALUE)) (concat (s_tids s)))).
+
+(* ==== vocabulary of the source-translation link for C12 / C03 ====
+   (harness/src_functions.py C12_*, generated file Generated/SrcReveal.v, proofs Proofs/C12Source.v)
+   A Python Screen object is a [screen].  Its array attributes are the COLUMNS of its rows, one entry per
+   experiment; a 2-d array carries its second dimension (so that an empty screen still has an arity).
+   Observation arrays are float64 bit patterns (Model/Screen.v).  The numpy calls below have their list
+   meaning for arrays of equal length, which is the invariant of the arrays of one Screen object (its
+   constructor refuses anything else: "All arrays must have the same number of experiments"); on lists of
+   different lengths - where numpy raises - zip_rows / np_or / select stop at the shorter one. *)
+Definition names2d := (nat * list (list name))%type.      (* treatment_names: (shape[1], rows) *)
+Definition doses2d := (nat * list (list Z))%type.         (* treatment_doses: dose keys *)
+Definition tmap_t := (tmapping * bool)%type.              (* a treatment_mapping argument with the flag "its id array has an integer dtype" *)
+Definition smap_t := (nmapping * bool)%type.
+
+(* attribute reads screen.<name> *)
+Definition col_tnames (s : screen) : names2d := (s_arity s, map (fun r => map fst (r_treats r)) (s_rows s)).
+Definition col_tdoses (s : screen) : doses2d := (s_arity s, map (fun r => map snd (r_treats r)) (s_rows s)).
+Definition col_samples (s : screen) : list name := map r_sample (s_rows s).
+Definition col_plates (s : screen) : list name := map r_plate (s_rows s).
+Definition col_obs (s : screen) : list Z := map r_obs (s_rows s).
+Definition col_mask (s : screen) : list bool := map r_mask (s_rows s).
+Definition screen_size (s : screen) : Z := Z.of_nat (length (s_rows s)).      (* screen.size *)
+(* screen.treatment_mapping / screen.sample_mapping of an existing Screen: integer ids *)
+Definition attr_tmap (s : screen) : tmap_t := (s_tmap s, true).
+Definition attr_smap (s : screen) : smap_t := (s_smap s, true).
+
+(* numpy, one call each *)
+Definition np_isin (a l : list Z) : list bool := map (fun x => mem_Z x l) a.            (* np.isin(a, l) *)
+Definition np_eq_zero (x : list Z) : list bool := map obs_is_zero x.                    (* x == 0, x a float array *)
+Definition np_isnan (x : list Z) : list bool := map obs_is_nan x.                       (* np.isnan(x) *)
+Definition np_all (b : list bool) : bool := forallb (fun x => x) b.                     (* np.all(b); True for the empty array *)
+Definition np_any (b : list bool) : bool := existsb (fun x => x) b.                     (* np.any(b) *)
+Definition np_or (a b : list bool) : list bool := map (fun p => fst p || snd p) (combine a b).   (* a | b *)
+Definition np_full {A} (x : A) (n : Z) : list A := repeat x (Z.to_nat n).               (* np.ones(n) / np.zeros(n) *)
+
+(* Screen(treatment_names=, treatment_doses=, sample_names=, plate_names=, observations=, observation_mask=,
+          control_treatment_name=, treatment_mapping=, sample_mapping=): row i is made of the i-th entries of the arrays;
+   an argument that is not passed is None (control_treatment_name: the default "") *)
+Fixpoint zip_rows (tn : list (list name)) (td : list (list Z)) (sn pn : list name) (ob : list Z) (mk : list bool)
+  : list row :=
+  match tn, td, sn, pn, ob, mk with
+  | a :: tn', b :: td', c :: sn', d :: pn', e :: ob', f :: mk' =>
+      {| r_sample := c; r_plate := d; r_treats := combine a b; r_obs := e; r_mask := f |} :: zip_rows tn' td' sn' pn' ob' mk'
+  | _, _, _, _, _, _ => []
+  end.
+
+Definition py_screen (tnames : names2d) (tdoses : doses2d) (samples plates : list name)
+    (obs : option (list Z)) (mask : option (list bool)) (ctrl : option name)
+    (tmap : option tmap_t) (smap : option smap_t) : result screen :=
+  let n := length samples in
+  let ob := match obs with Some o => o | None => repeat 0 n end in            (* overwritten by mk_screen when not given *)
+  let mk := match mask with Some m => m | None => repeat false n end in
+  mk_screen (zip_rows (snd tnames) (snd tdoses) samples plates ob mk) (fst tnames)
+            (match ctrl with Some c => c | None => [] end) tmap smap
+            (match obs with Some _ => true | None => false end) (match mask with Some _ => true | None => false end).
